@@ -1,6 +1,7 @@
 //! C09 operations: the real walker / planners on a materialised tree.
 //!
-//! `scope <level> <respect 0|1> I n pat… X n pat… T n node… O n (path bits)… M <search>`
+//! `scope <level> <respect 0|1> I n pat… X n pat… P n root… T n node… O n (path bitsBelow bitsAbove)… M <search>`
+//!     roots are relative to the top of the materialised tree (`-` = the top); ignore files above a root are part of the tree
 //!     -> `W <walked…> | S <files_scanned> <files with hunks…> | R <rename sources…> | Q <files_scanned> <files with
 //!         matches…> | QR <rename sources…>`   (paths relative to the root, hex, sorted)
 //!     W  entries (depth >= 1) yielded by `renamify_core::configure_walker(&[root], &opts).build()`
@@ -14,7 +15,7 @@
 use crate::util::*;
 use crate::wire::*;
 use renamify_core::scanner::{build_globset, PlanOptions};
-use renamify_core::{configure_walker, create_simple_plan, scan_repository};
+use renamify_core::{configure_walker, create_simple_plan, scan_repository, scan_repository_multi};
 use std::os::unix::ffi::OsStrExt;
 use std::path::Path;
 
@@ -43,12 +44,14 @@ fn scope(f: &[&str]) -> String {
     let (Some(level), Some(respect)) = (c.next().and_then(|s| s.parse::<u8>().ok()), c.next()) else {
         return "bad-req".into();
     };
-    let (Some(inc), Some(exc), Some(tree)) = (strings(&mut c, "I"), strings(&mut c, "X"), parse_tree(&mut c)) else {
+    let (Some(inc), Some(exc), Some(rootrels), Some(tree)) =
+        (strings(&mut c, "I"), strings(&mut c, "X"), strings(&mut c, "P"), parse_tree(&mut c))
+    else {
         return "bad-req".into();
     };
     // skip the oracle section
     let Some(n) = c.counted("O") else { return "bad-req".into() };
-    for _ in 0..2 * n {
+    for _ in 0..3 * n {
         c.next();
     }
     if c.next() != Some("M") {
@@ -57,6 +60,11 @@ fn scope(f: &[&str]) -> String {
     let Some(search) = c.next().and_then(unhex_str) else { return "bad-req".into() };
     let root = fresh("s");
     materialize(&root, &tree);
+    let roots: Vec<std::path::PathBuf> =
+        rootrels.iter().map(|r| if r.is_empty() { root.clone() } else { root.join(r) }).collect();
+    if roots.is_empty() {
+        return "bad-req".into();
+    }
     let opts = PlanOptions {
         includes: inc,
         excludes: exc,
@@ -65,12 +73,12 @@ fn scope(f: &[&str]) -> String {
         ..PlanOptions::default()
     };
     let mut walked = vec![];
-    for e in configure_walker(&[root.clone()], &opts).build().flatten() {
+    for e in configure_walker(&roots, &opts).build().flatten() {
         if e.depth() >= 1 {
             walked.push(rel_hex(&root, e.path()));
         }
     }
-    let s_part = match scan_repository(&root, &search, "baz_qux", &opts) {
+    let s_part = match scan_repository_multi(&roots, &search, "baz_qux", &opts) {
         Ok(plan) => format!(
             "S {} {} | R {}",
             plan.stats.files_scanned,
@@ -79,12 +87,13 @@ fn scope(f: &[&str]) -> String {
         ),
         Err(_) => "S err | R err".to_string(),
     };
-    let q_part = match create_simple_plan(&search, "baz_qux", vec![root.clone()], &opts, false) {
+    let q_part = match create_simple_plan(&search, "baz_qux", roots.clone(), &opts, false) {
         Ok(plan) => format!(
             "Q {} {} | QR {}",
             plan.stats.files_scanned,
-            sorted_join(plan.matches.iter().map(|m| rel_hex(&root, &m.file)).collect()),
-            sorted_join(plan.paths.iter().map(|r| rel_hex(&root, &r.path)).collect())
+            // create_simple_plan reports paths relative to its first root
+            sorted_join(plan.matches.iter().map(|m| rel_hex(&root, &roots[0].join(&m.file))).collect()),
+            sorted_join(plan.paths.iter().map(|r| rel_hex(&root, &roots[0].join(&r.path))).collect())
         ),
         Err(_) => "Q err | QR err".to_string(),
     };
